@@ -127,6 +127,13 @@ CHECKS["C14"] = dict(
     ref="4/C14",
 )
 
+CHECKS["C07"] = dict(
+    technique="non-interference oracle on real renders (vary only the caller's locals / only the partial's assignments and compare delimited regions) + frame-condition invariant asserted at hooks on Node.render / RenderContext.extend / loop (scope chain, loop stack, template, disabled tags restored on normal and exceptional exit) with fault injection at every k-th data access",
+    text="Exploration: ~2e3 caller x partial/macro pairs over a shared name pool rendered four ways (O1 caller->partial, O2 partial->caller), every include-refusal path of length <= 3 (O3), 600 binder nests with probes before/after every construct incl. break/continue (O4), ~3e6 node exits of which ~1e5 exceptional and 1e4 fault injections with harness-owned contexts checked after return or raise (O5), render-for item-order independence (O6); sync and async.",
+    note="Trusted: the harness's region delimiters and the identity-based scope-chain snapshot; faults are injected at data __getitem__/__str__/__eq__ only.",
+    ref="4/C07",
+)
+
 NOT_YET = {}
 
 def main():
